@@ -1,5 +1,4 @@
 SPECIFICATION Spec
-CONSTANT Programs <- ProgramsFromFile
 INVARIANT IsModel Supported Emit
 PROPERTY Monotone
 CHECK_DEADLOCK FALSE
